@@ -159,6 +159,19 @@ def body(case):
                 continue
             if any(grid.axes[i][st_[i]] < levels[i] for i in range(d)):
                 rate += float(inv.probability_to_jump_to_state(tuple(x - o for x, o in zip(st_, oc)))) * lam
+    if d == 1:
+        # the closed form is a function of the model it holds *as it is now*: after the model is truncated in place to the
+        # grid's bounds (what a chain does to its own copy) the same pricer object must agree with a fresh pricer
+        lo_t, hi_t = (float(v) for v in grid.truncations[0])
+        model.truncate_levy_measure(truncations=(lo_t, hi_t))
+        again = float(cf._theta(levels[0]))
+        fresh_cf = float(CFLevyModel(model=model)._theta(levels[0]))
+        nu0 = build_model(case["margins"][0], force_exp=False).levy_triplet.nu
+        expect = th - nu_integral(nu0, -INF, lo_t, 0, quad_hints(case["margins"][0]))[0]
+        if again != fresh_cf or abs(again - expect) > 1e-6 * abs(expect) + 1e-10:
+            out.append(Violation(f"{tag}/closed-form-does-not-follow-the-model-after-an-in-place-truncation",
+                                 f"same pricer {again!r}, fresh pricer on the truncated model {fresh_cf!r}, mass of "
+                                 f"({lo_t}, {levels[0]}) {expect!r} (before the truncation {th!r}); {detail}"))
     leak = 0.0
     for i, m in enumerate(case["margins"]):
         nu = build_model(m, force_exp=False).levy_triplet.nu
@@ -190,5 +203,5 @@ SUBCHECKS = [
                   "reference model, monotone in each threshold, survival / par spread / implied threshold / implied "
                   "spread / E[CDS payoff] by numerical integration, sum of the chain's default-state rates vs theta "
                   "within the computed truncation leak; non-trivial = d>=2, asymmetric grid or threshold near the bound",
-             strategy=strat_case, budget={"quick": 200, "thorough": 3000}, shards={"quick": 16, "thorough": 16}),
+             strategy=strat_case, budget={"quick": 480, "thorough": 4800}, shards={"quick": 16, "thorough": 16}),
 ]
